@@ -274,6 +274,8 @@ class JointRecurrencePlot(RecurrencePlot):
             self.JR = recurrence_y[:N+self.lag, :N+self.lag] * \
                 recurrence_x[-self.lag:N, -self.lag:N]
         self.N = self.JR.shape[0]
+        #  the thresholds now in force (reported by __str__)
+        self.threshold = tuple(threshold)
 
     def set_fixed_threshold_std(self, threshold_std):
         """
@@ -337,3 +339,5 @@ class JointRecurrencePlot(RecurrencePlot):
             self.JR = recurrence_y[:N+self.lag, :N+self.lag] * \
                 recurrence_x[-self.lag:N, -self.lag:N]
         self.N = self.JR.shape[0]
+        #  no fixed thresholds are in force any more
+        self.threshold = None
